@@ -1,6 +1,7 @@
 """C07 — Dart (dart:ffi) and Kotlin (JNA) native declarations match the C ABI (structural clauses)."""
 import re
 import common as C
+import flow
 import tables as T
 import tmpl
 import order
@@ -211,8 +212,49 @@ def run(ck, facts):
             holes = "⟦" in fo.group(1)
             name = re.sub(r"\s+", "", cm.group(1))
             if holes or any(f.startswith("⟦") for f in fields):
-                # generated field list: both come from the same loop variable
-                ck.ok("R2", "%s/%s/field-order" % (rel, name), "generated from one field list", "tool/templates/" + rel)
+                # generated field list: the declarations and the order list must both be printed by loops over the SAME iterable, name by name
+                def loop_iter(pos):
+                    fors = [g_ for g_ in tmpl.guards_at(text, pos) if g_.startswith("for ")]
+                    m_ = re.match(r"for\s+(\w+)\s+in\s+(.+)$", fors[-1]) if fors else None
+                    return (m_.group(1), re.sub(r"\s+", "", m_.group(2))) if m_ else (None, None)
+                decl_pos = [start + m_.start() for m_ in re.finditer(r"@JvmField", body)]
+                order_pos = start + fo.start(1) + max(fo.group(1).find("⟦"), 0)
+                dv, di = loop_iter(decl_pos[-1]) if decl_pos else (None, None)
+                ov, oi = loop_iter(order_pos)
+                name_hole = re.search(r"\"⟦\s*(\w+)\.name\s*⟧\"", fo.group(1))
+                ok_gen = di is not None and di == oi and bool(name_hole) and name_hole.group(1) == ov
+                pre = re.search(r"⟦\s*(\w+)\s*⟧", fo.group(1)) if not ok_gen and oi is None else None
+                if pre:
+                    # a pre-joined name list computed in Rust: it must come from the declarations' collection through order-preserving steps only
+                    fname_ = pre.group(1)
+                    REORD = {"sort", "sort_by", "sort_by_key", "sort_unstable", "sort_unstable_by", "sort_unstable_by_key", "dedup", "rev", "reverse", "retain", "filter", "skip", "take", "swap"}
+                    verdicts = []
+                    for kf in [f for f in tool.fn_list if f["path"].startswith("diplomat_tool::kotlin::") and "hir" in f and not f.get("exp")]:
+                        kdefs = flow.defs_of(kf)
+                        for n in C.walk(C.fn_body(kf)):
+                            if n.get("k") == "letst" and isinstance(n.get("pat"), dict) and n["pat"].get("n") == fname_ and n.get("init") is not None:
+                                chain_nodes = []
+                                todo = [n["init"]]
+                                seen_ids = set()
+                                while todo:
+                                    e_ = todo.pop()
+                                    for x in C.walk(e_):
+                                        chain_nodes.append(x)
+                                        if x.get("k") == "local" and x.get("id") not in seen_ids and (di is None or x.get("n") != di.split(".")[-1]):
+                                            seen_ids.add(x.get("id"))
+                                            d_ = kdefs.get(x.get("id"))
+                                            if d_ and d_[0] == "expr":
+                                                todo.append(d_[1])
+                                bad_ops = sorted({x["m"] for x in chain_nodes if x.get("k") == "mcall" and x.get("m") in REORD} |
+                                                 {"collect::<%s>" % t_ for x in chain_nodes if x.get("k") == "mcall" and x.get("m") == "collect" for t_ in re.findall(r"(BTreeSet|HashSet|BTreeMap|HashMap|BinaryHeap)", x.get("ty") or "")})
+                                src_ok = di is not None and any(x.get("k") in ("local", "field") and x.get("n") == di.split(".")[-1] for x in chain_nodes)
+                                verdicts.append((not bad_ops and src_ok, bad_ops, src_ok))
+                    ok_gen = bool(verdicts) and all(v[0] for v in verdicts)
+                    if not ok_gen:
+                        oi = "precomputed `%s` %s" % (fname_, [v[1:] for v in verdicts])
+                ck.expect(ok_gen, "R2", "%s/%s/field-order" % (rel, name), "declarations and getFieldOrder both loop over `%s`" % di,
+                          "getFieldOrder() is printed from `%s` (loop over %s) while the @JvmField declarations loop over %s: JNA lays the struct out in getFieldOrder order, "
+                          "so a differently ordered list (e.g. sorted names) scrambles the fields" % (fo.group(1).strip()[:60], oi, di), "tool/templates/" + rel)
                 continue
             ck.expect(fields == listed, "R2", "%s/%s/field-order" % (rel, name), str(listed), "@JvmField order %s differs from getFieldOrder %s: JNA lays the struct out in getFieldOrder order" % (fields, listed), "tool/templates/" + rel)
     if n_struct < 4:
@@ -295,3 +337,26 @@ def run(ck, facts):
     ok = len(key_calls) >= 2 and all(k.get("k") == "lit" and k.get("v") is False for k in key_calls) and uses_key
     ck.expect(ok, "R2", "dart::gen_result/cache-key-is-abi-type", "key built from the ffi (cast=false) type names",
               "the `_Result..` helper class is cached under a name built from the Dart-side type (cast=%s): payloads of different width share one record with the first one's @ffi annotation" % [k.get("v") for k in key_calls], C.loc(gr))
+
+    # ---------------- R2 (cont.) every fallible / nullable return is declared as the result record, never as a scalar
+    for fn_sfx, label in (("dart::TyGenContext::gen_return_type_name_ffi", "dart"),):
+        rf = tool.fn(fn_sfx, optional=True)
+        if rf is None:
+            ck.bad("R2", "%s::gen_return_type_name_ffi/anchor" % label, "function not found", None)
+            continue
+        mt = next((n for n in C.walk(C.fn_body(rf)) if n.get("k") == "match" and (n.get("sadt") or "").endswith("methods::ReturnType")), None)
+        if mt is None:
+            ck.bad("R2", "%s::gen_return_type_name_ffi/match" % label, "match on ReturnType not found", C.loc(rf))
+            continue
+        bad_shapes = []
+        n_shapes = 0
+        for v, hits in C.decision_table(mt, adts, "diplomat_core::hir::methods::ReturnType"):
+            if not hits or v.variant not in ("Fallible", "Nullable"):
+                continue
+            n_shapes += 1
+            arm = mt["arms"][hits[0][0]]
+            rec = any(x.get("k") == "mcall" and x.get("m") == "gen_result" for x in C.walk_inl(tool, arm["b"], 1, exclude=[rf["path"]]))
+            if not rec and not C.diverges(arm["b"]):
+                bad_shapes.append(v.show())
+        ck.expect(n_shapes >= 2 and not bad_shapes, "R2", "%s::gen_return_type_name_ffi/result-record" % label, "%d fallible/nullable shapes -> gen_result" % n_shapes,
+                  "the native return type of %s is not the `{union; bool}` result record (gen_result) but a scalar: C returns a struct (by hidden pointer on some ABIs), the binding reads a register" % bad_shapes, C.loc(rf))
